@@ -1,19 +1,20 @@
 /-
   Props.C06 — unique indexes hold in every reachable state, across every write path.
   Statements only; proofs in Proofs/C06*.lean.  Model: `MongoModel.stepColl` (insert, insert_many,
-  update, replace, upsert, delete, the reads, create_index, drop_index(es), drop), tied to
+  update, replacement, upsert, delete, the reads, create_index, drop_index(es), drop), tied to
   mongomock by the history correspondence of harness/props/c06.py.
 
   DOMAIN.  `UniqInv` (Spec/Unique.lean): no two documents covered by a unique index have equal
   keys.  It is stated where indexed paths run through sub-documents to scalars (`ScalarInv`;
-  outside lie the known findings `multikey`, `deadend-null`).  On that domain the statement
-  "every operation preserves `UniqInv`" is still FALSE (`step_uniq_inv_scalar_fails`):
-  `_apply_update` stores an edited document WITHOUT calling `_ensure_uniques` when it is Python-`==`
-  to the one it replaces (known finding `unchanged-branch-skips-check`).  The theorems are
-  therefore `_partial`, with three more hypotheses, each naming what it excludes
-  (Spec/Unique.lean): `KeysDistinctSym` (C05's primary-key invariant, both orientations),
-  `WfDocs` (no association list with a repeated field name, which no Python dict can be),
-  `PfStable` (no partial filter that tells `==`-equal documents apart, such as `{$type: "double"}`).
+  outside lie the known findings `multikey`, `deadend-null`: `step_uniq_inv_full_fails`).  On
+  that domain EVERY operation preserves `UniqInv`, with no further hypothesis
+  (`step_uniq_inv_partial`), and so does every history (`reachable_uniq_partial`).
+
+  (Until library commit a320edd the statement was false on that domain too: `_apply_update` stored
+  an edited document WITHOUT calling `_ensure_uniques` when it was Python-`==` to the one it
+  replaced — the repaired finding `partial-type-sensitive`; the theorems then carried the
+  hypotheses `KeysDistinctSym`, `WfDocs`, `PfStable`.  Its witness is kept as a regression example
+  below: the update is now rejected.)
 -/
 import Proofs.C06
 
@@ -30,64 +31,29 @@ def step_uniq_inv_full : Prop :=
   ∀ (cfg : Cfg) (now : Int) (c : Coll) (op : Val), UniqInv c → UniqInv (stepColl cfg now c op).1
 
 /-- The unrestricted statement is FALSE of the code.  Witness (closed, evaluated in the kernel;
-    `Proofs.C06Lemmas.cexColl`, `cexOp`): unique index on `k` with
-    `partialFilterExpression: {t: {$type: "double"}}`, documents `{_id: 1, k: 5, t: 1.0}` (covered) and
-    `{_id: 2, k: 5, t: 1}` (not covered), `update_one({_id: 2}, {$set: {t: 1.0}})`: the edited document
-    is `==` to the old one, so `_apply_update` reports "not modified" and runs no uniqueness
-    check — and both documents are now covered with key `[5]`
-    (known finding `unchanged-branch-skips-check`).  A second, independent witness is the known
-    finding `multikey` (`{a: 2}` then `{a: [1, 2]}`: array-valued keys are not multikey). -/
+    `Proofs.C06Lemmas.cexColl`, `cexOp`): unique index on `a.b`, document `{_id: 1, b: 1}` (no
+    `a.b`: key null), `insert_one({_id: 2, a: ""})` — no `a.b` either, but the look-up
+    `{a.b: null}` of `_ensure_uniques` does not match a path that runs into a scalar, and the
+    insert is accepted (known finding `deadend-null`, the matcher's dead-end defect of C01).
+    Array-valued keys (known finding `multikey`) lie outside `ScalarInv` as well. -/
 theorem step_uniq_inv_full_fails : ¬ step_uniq_inv_full := Proofs.C06.step_uniq_inv_full_false
 
-/-- The statement restricted to the scalar-key domain only (the first formulation of
-    `step_uniq_inv_partial`). -/
-def step_uniq_inv_scalar : Prop :=
-  ∀ (cfg : Cfg) (now : Int) (c : Coll) (op : Val), UniqInv c → ScalarInv c →
-    ScalarInv (stepColl cfg now c op).1 → UniqInv (stepColl cfg now c op).1
-
-/-- It is FALSE too — same witness: the keys are scalars, the store keys distinct, the documents
-    well-formed; only `PfStable` fails. -/
-theorem step_uniq_inv_scalar_fails : ¬ step_uniq_inv_scalar :=
-  Proofs.C06Lemmas.step_uniq_scalar_false
-
 /-- **Every operation preserves uniqueness** — whatever write path is taken (insert, insert_many,
-    update, replacement, upsert), successful or rejected, and for delete, the reads, index
-    creation and removal — PROVIDED
-    * the resulting collection is in the scalar-key domain (`ScalarInv`; excluded: known findings
-      `multikey`, `deadend-null`) and holds well-formed documents only (`WfDocs`; excluded:
-      association lists with a repeated field name, not Python values);
-    * the store keys before the operation are pairwise different in both orientations of `==`
-      (`KeysDistinctSym`: C05's invariant; excluded: states C05 proves unreachable for scalar `_id`s);
-    * no unique index has a partial filter that tells `==`-equal documents apart (`PfStable`;
-      excluded: known finding `unchanged-branch-skips-check`).
-    Nothing is assumed of the documents BEFORE the operation (not even `ScalarInv c`), nor of the
-    operation. -/
+    update, replacement, upsert; the "modified" and the "unchanged by `==`" branch of an update),
+    successful or rejected, and for delete, the reads, index creation and removal — PROVIDED the
+    resulting collection is in the scalar-key domain (`ScalarInv`; excluded: known findings
+    `multikey`, `deadend-null`).
+    Nothing is assumed of the documents BEFORE the operation (not even `ScalarInv c`), of the
+    store keys, of the partial filters, nor of the operation. -/
 theorem step_uniq_inv_partial (cfg : Cfg) (now : Int) (c : Coll) (op : Val)
-    (hu : UniqInv c) (hk : KeysDistinctSym c) (hp : PfStable c)
-    (hs' : ScalarInv (stepColl cfg now c op).1) (hw' : WfDocs (stepColl cfg now c op).1) :
+    (hu : UniqInv c) (hs' : ScalarInv (stepColl cfg now c op).1) :
     UniqInv (stepColl cfg now c op).1 :=
-  Proofs.C06.step_uniq_inv_alt cfg now c op hu hk hp hs' hw'
-
-/-- `KeysDistinctSym` follows from C05's `KeysDistinct` when `==` is symmetric on the store keys
-    (scalar, empty and single-field embedded `_id`s: `Props.C05.scalar_symm`, …). -/
-theorem keysDistinctSym_of (c : Coll) (h : KeysDistinct c) (hs : ∀ p ∈ c.docs, SymmVal p.1) :
-    KeysDistinctSym c :=
-  Proofs.C06Lemmas.keysDistinctSym_of h hs
-
-/-- `PfStable` holds when no unique index is partial. -/
-theorem pfStable_of_noPartial (c : Coll)
-    (h : ∀ ix ∈ c.indexes, ix.unique = true → ix.partialFilter = none) : PfStable c := by
-  intro ix hix hu f hf
-  rw [h ix hix hu] at hf
-  cases hf
+  Proofs.C06.step_uniq_inv_alt cfg now c op hu hs'
 
 /-- For a concrete state and operation the hypotheses of `step_uniq_inv_partial` can be
-    discharged by evaluation (`uniqB`, `keysB`, `scalB`, `wfDocsB` decide `UniqInv`,
-    `KeysDistinctSym`, `ScalarInv`, `WfDocs`; `noPartialB`: no unique index is partial). -/
+    discharged by evaluation (`uniqB`, `scalB` decide `UniqInv`, `ScalarInv`). -/
 theorem step_uniq_inv_check (cfg : Cfg) (now : Int) (c : Coll) (op : Val)
-    (h : (Proofs.C06Lemmas.uniqB c && Proofs.C06Lemmas.keysB c && Proofs.C06Lemmas.noPartialB c &&
-      Proofs.C06Lemmas.scalB (stepColl cfg now c op).1 &&
-      Proofs.C06Lemmas.wfDocsB (stepColl cfg now c op).1) = true) :
+    (h : (Proofs.C06Lemmas.uniqB c && Proofs.C06Lemmas.scalB (stepColl cfg now c op).1) = true) :
     UniqInv (stepColl cfg now c op).1 :=
   Proofs.C06.step_uniq_inv_check cfg now c op h
 
@@ -103,37 +69,42 @@ example : UniqInv (stepColl {} 0
     (.arr [.str "update_many", .doc [], .doc [("$set", .doc [("k", .int 9)])], .bool false])).1 :=
   step_uniq_inv_check _ _ _ _ (by decide +kernel)
 
+/-- regression example (the witness of the repaired finding `partial-type-sensitive`,
+    `Proofs.C06Lemmas.ptsColl`, `ptsOp`): unique index on `k` with
+    `partialFilterExpression: {t: {$type: "double"}}`, documents `{_id: 1, k: 5, t: 1.0}` (covered)
+    and `{_id: 2, k: 5, t: 1}` (not covered), `update_one({_id: 2}, {$set: {t: 1.0}})`.  The edited
+    document is `==` to the old one; the update is rejected all the same, `t` stays an int and the
+    invariant holds (by the theorem, and by evaluation). -/
+example :
+    UniqInv (stepColl {} 0 Proofs.C06Lemmas.ptsColl Proofs.C06Lemmas.ptsOp).1 ∧
+    (stepColl {} 0 Proofs.C06Lemmas.ptsColl Proofs.C06Lemmas.ptsOp).2.isErr = true ∧
+    (stepColl {} 0 Proofs.C06Lemmas.ptsColl Proofs.C06Lemmas.ptsOp).1.docs.map
+      (fun p => Proofs.C06Lemmas.tKind p.2) = ["double", "int"] :=
+  ⟨step_uniq_inv_check _ _ _ _ (by decide +kernel), Proofs.C06Lemmas.pts_after.1,
+    Proofs.C06Lemmas.pts_after.2.2⟩
+
 /-! ### histories -/
 
 /-- **In every reachable state** (any history from the empty collection, `run`: every step is
     followed by the harness's observation) no two documents covered by a unique index have equal
-    keys, PROVIDED the final state is in the scalar-key domain with well-formed documents
-    (`ScalarInv`, `WfDocs`) and every state along the history has pairwise different store keys
-    (`KeysDistinctSym`, C05) and no unique index whose partial filter tells `==`-equal documents
-    apart (`PfStable`; excluded: known finding `unchanged-branch-skips-check`).  The intermediate
+    keys, PROVIDED the final state is in the scalar-key domain (`ScalarInv`).  The intermediate
     states need NOT be in the scalar-key domain (a document with an array-valued key that is later
     deleted, expired or overwritten does no harm): the proof carries "uniqueness among the
-    well-formed, scalar-keyed, covered documents", which every operation preserves with no
-    hypothesis on the documents (`Proofs.C06.step_carried`). -/
+    scalar-keyed, covered documents", which every operation preserves with no hypothesis at all
+    (`Proofs.C06.step_carried`). -/
 theorem reachable_uniq_partial (cfg : Cfg) (ops : List Val)
-    (hd : ∀ n, KeysDistinctSym (run cfg (ops.take n)).2.c ∧ PfStable (run cfg (ops.take n)).2.c)
-    (hs : ScalarInv (run cfg ops).2.c) (hw : WfDocs (run cfg ops).2.c) :
-    UniqInv (run cfg ops).2.c :=
-  Proofs.C06.reachable_uniq_alt cfg ops hd hs hw
+    (hs : ScalarInv (run cfg ops).2.c) : UniqInv (run cfg ops).2.c :=
+  Proofs.C06.reachable_uniq_alt cfg ops hs
 
-/-- For a concrete history the hypotheses of `reachable_uniq_partial` can be discharged by
+/-- For a concrete history the hypothesis of `reachable_uniq_partial` can be discharged by
     evaluation. -/
 theorem reachable_uniq_check (cfg : Cfg) (ops : List Val)
-    (h : ((List.range (ops.length + 1)).all (fun n =>
-        Proofs.C06Lemmas.keysB (run cfg (ops.take n)).2.c &&
-        Proofs.C06Lemmas.noPartialB (run cfg (ops.take n)).2.c) &&
-      Proofs.C06Lemmas.scalB (run cfg ops).2.c && Proofs.C06Lemmas.wfDocsB (run cfg ops).2.c) = true) :
-    UniqInv (run cfg ops).2.c :=
+    (h : Proofs.C06Lemmas.scalB (run cfg ops).2.c = true) : UniqInv (run cfg ops).2.c :=
   Proofs.C06.reachable_uniq_check cfg ops h
 
 /-- the history used below: unique index, inserts (one rejected: `5 == 5.0`), an unordered
     insert_many with one rejection, an update_many rejected half-way, an update through the
-    "not modified" branch (`6 → 6.0`), a rejected upserting replacement, a sparse compound unique
+    "unchanged by `==`" branch (`6 → 6.0`: stored and checked), a rejected upserting replacement, a sparse compound unique
     index, an accepted upsert, an insert rejected by the compound index, an accepted one, a delete -/
 def demoHistory : List Val := [
   .arr [.str "create_index", .arr [.arr [.str "k", .int 1]], .doc [("unique", .bool true)]],
